@@ -103,7 +103,7 @@ class Registry:
             L.append('#define M%d_SHAPE %d' % (i, shape))
         L.append('static const type_id CLASS_ID[NC] = {%s};' % ', '.join(str(x) for x in self.ids))
         L.append('static const int REC_CLASS[NREC] = {%s};' % ', '.join(str(r[0]) for r in recs))
-        L.append('static const type_id REC_ID[NREC] = {%s};' % ', '.join(str(self.ids[r[0]] + (8 if r[2] else 0)) for r in recs))
+        L.append('static const type_id REC_ID[NREC] = {%s};' % ', '.join(('(%s) + %d' % (self.ids[r[0]], 8 if r[2] else 0)) if isinstance(self.ids[r[0]], str) else str(self.ids[r[0]] + (8 if r[2] else 0)) for r in recs))
         L.append('static const int REC_NB[NREC] = {%s};' % ', '.join(str(len(r[1])) for r in recs))
         L.append('static const int REC_BASES[NREC][MAXB] = {%s};' % (', '.join('{' + ', '.join(str(b) for b in (r[1] or [0])) + '}' for r in recs)))
         L.append('static const bool TRUE_BASE[NC][NC] = {%s};' % ', '.join('{' + ', '.join('1' if j in self.direct[i] else '0' for j in range(nc)) + '}' for i in range(nc)))
